@@ -145,13 +145,24 @@ class Splitter:
         def _is_escaped():
             return currently_quote_escaped or num_open_curls > 0
 
+        # Curly brackets opened within a quote-escaped value:
+        #   a quote within them does not close the value.
+        num_open_curls_in_quote = 0
+
         # iterate over marks until we find end of field
         while True:
             next_mark = self._next_mark(accept_eof=False)
 
             # Handle "escape" characters
             if next_mark.group(0) == '"' and not num_open_curls > 0:
-                currently_quote_escaped = not currently_quote_escaped
+                if num_open_curls_in_quote == 0:
+                    currently_quote_escaped = not currently_quote_escaped
+                continue
+            elif next_mark.group(0) == "{" and currently_quote_escaped:
+                num_open_curls_in_quote += 1
+                continue
+            elif next_mark.group(0) == "}" and num_open_curls_in_quote > 0:
+                num_open_curls_in_quote -= 1
                 continue
             elif next_mark.group(0) == "{" and not currently_quote_escaped:
                 num_open_curls += 1
